@@ -201,7 +201,7 @@ TLen ==
           /\ Ev.st = cs /\ cs' = cs              \* a length call never moves the unchecked cursor
 
 TRead ==
-  /\ Ev.op \notin {"reset", "init", "end", "endr", "r_skip"} /\ IsR /\ Advance /\ UNCHANGED <<base, lsum, wsum>>
+  /\ Ev.op \notin {"reset", "init", "end", "endr", "r_skip", "r_get_bytes"} /\ IsR /\ Advance /\ UNCHANGED <<base, lsum, wsum>>
   /\ IF P = "compact"
      THEN LET q == CompactR(cs, Ev) IN q.ok /\ q.n = Ev.n /\ q.r = Ev.st /\ cs' = q.r /\ pos' = pos + q.n
      ELSE LET q == BinR(Ev) IN
@@ -227,12 +227,18 @@ TSkip ==
           /\ IF P = "compact" THEN (Ev.st = [cs EXCEPT !.pid = <<>>] \/ Ev.st = cs) /\ cs' = Ev.st
              ELSE IF P = "unsafe" THEN cs' = Ev.st ELSE Ev.st = cs /\ cs' = cs
 
+\* get_bytes(Some(ptr), len): a copy of input that was already consumed; nothing is consumed, the compact context does not
+\* move; the unchecked reader re-bases its cursor but its accounting (advanced + index) stays at the model's position
+TGetBytes ==
+  /\ Ev.op = "r_get_bytes" /\ Ev.copy /\ Ev.n = 0 /\ Advance /\ UNCHANGED <<base, pos, lsum, wsum>>
+  /\ IF P = "unsafe" THEN UConsumed(Len(Inp), Ev.st) = pos /\ cs' = Ev.st ELSE Ev.st = cs /\ cs' = cs
+
 \* end of an emitted decode: everything up to the trailer was consumed, a compact reader is back in its initial state
 TEndR == /\ Ev.op = "endr" /\ Advance /\ UNCHANGED <<base, cs, pos, lsum, wsum>>
          /\ pos = Ev.used
          /\ (P = "compact" => cs = R0)
 
-TraceNext == i <= Len(Rec) /\ (TReset \/ TInit \/ TWrite \/ TLen \/ TRead \/ TEnd \/ TReadLen \/ TSkip \/ TEndR)
+TraceNext == i <= Len(Rec) /\ (TReset \/ TInit \/ TWrite \/ TLen \/ TRead \/ TEnd \/ TReadLen \/ TSkip \/ TGetBytes \/ TEndR)
 TraceSpec == TraceInit /\ [][TraceNext]_vars
 
 \* a compact protocol object is back in its initial state whenever a top-level value is complete
